@@ -10,7 +10,7 @@ from common import ModelError, R, cfl, fl, max_rel_err
 from common import wiring_pre_build as pre_build  # noqa: E402,F401
 
 LEAN_MODULES = ["PyomaVerif.Props.C04", "PyomaVerif.Mutants.C04", "PyomaVerif.Props.WiringRun", "PyomaVerif.Props.C04C13",
-                "PyomaVerif.Props.C04C06", "PyomaVerif.Props.WiringStore", "PyomaVerif.Props.WiringClass"]
+                "PyomaVerif.Props.C04C06", "PyomaVerif.Props.WiringStore", "PyomaVerif.Props.WiringClass", "PyomaVerif.Props.WiringCalls"]
 THEOREMS = [
     # C04 o C06 (o C13): multi-setup FDD end to end (Props/C04C06.lean)
     "PV.C04C06.sdEst_rank_one_entry",
@@ -40,6 +40,8 @@ THEOREMS = [
     "PV.WiringRun.C04_run_spectral_ms",
     "PV.WiringStore.C04_run_result_store_ms",
     "PV.WiringClass.C04_run_own",
+    "PV.WiringCalls.C04_ms_run_calls",
+    "PV.WiringCalls.C05_plscf_run_calls",
     "PV.C04.C04_shape",
     "PV.C04.C04_blocks",
     "PV.C04.C04_identical_refs",
